@@ -689,7 +689,7 @@ func distinctConsts(a, b *Term) bool {
 	if a.Op == "ref" && b.Op == "ref" {
 		return a.Val != b.Val || a.I1 != b.I1
 	}
-	if a.Op == "ref" && (isInputRef(b) || b.Op == "intconst") || b.Op == "ref" && (isInputRef(a) || a.Op == "intconst") {
+	if a.Op == "ref" && (isInputRef(b) || b.Op == "intconst" || isEntryLoad(b)) || b.Op == "ref" && (isInputRef(a) || a.Op == "intconst" || isEntryLoad(a)) {
 		return true
 	}
 	// input references are >= 0, package-level variables live at negative references
@@ -717,6 +717,19 @@ func distinctConsts(a, b *Term) bool {
 		}
 	}
 	return false
+}
+
+// isEntryLoad: a reference read from the heap as it was on entry (H0:...): it existed then, so it is below every
+// reference allocated since (the ref(...) terms)
+func isEntryLoad(t *Term) bool {
+	if t.Op != "select" || t.Sort != SInt {
+		return false
+	}
+	a := t.Args[0]
+	for a.Op == "select" {
+		a = a.Args[0]
+	}
+	return a.Op == "var" && strings.HasPrefix(a.Name, "H0:")
 }
 
 func splitAdd(t *Term) (*Term, uint64) {
@@ -1022,6 +1035,14 @@ func (p *Printer) inline(t *Term) string {
 			bs = append(bs, fmt.Sprintf("(%s %s)", smtName(b.Name), b.Sort))
 		}
 		if len(args) > 1 {
+			if len(t.Bound) == 1 {
+				// one bound variable: every pattern alone binds it, so they are alternatives
+				var ps []string
+				for _, a := range args[1:] {
+					ps = append(ps, ":pattern ("+a+")")
+				}
+				return fmt.Sprintf("(forall (%s) (! %s %s))", strings.Join(bs, " "), args[0], strings.Join(ps, " "))
+			}
 			return fmt.Sprintf("(forall (%s) (! %s :pattern (%s)))", strings.Join(bs, " "), args[0], strings.Join(args[1:], " "))
 		}
 		return fmt.Sprintf("(forall (%s) %s)", strings.Join(bs, " "), args[0])
